@@ -6,6 +6,7 @@ import (
 	"encoding/json"
 	"fmt"
 	pubsub "github.com/libp2p/go-libp2p-pubsub"
+	ma "github.com/multiformats/go-multiaddr"
 	"os"
 	"path/filepath"
 	"reflect"
@@ -484,6 +485,31 @@ func pubsubCase(c *fw.Ctx, idx int) {
 	if hasPin(ctx, B, x) {
 		c.Violation("C07/pubsub/untrusted-update-applied", "a replica applied a pin published by a peer it does not trust (the control replica that trusts it got it too)", nil)
 		return
+	}
+	// phase 1b: B joins the cluster through U (as a peer started with a bootstrap address
+	// does). Whom B trusts is configuration, not a by-product of whom it bootstrapped from.
+	if uaddr, aerr := ma.NewMultiaddr(U.Host.Addrs()[0].String() + "/p2p/" + peer.Encode(U.ID)); aerr == nil {
+		jctx, jcancel := context.WithTimeout(ctx, 20*time.Second)
+		jerr := B.Node.Cluster.Join(jctx, uaddr)
+		jcancel()
+		if jerr == nil {
+			xj, ok := pinAt(U, 5)
+			if !ok {
+				return
+			}
+			if !waitFor(30*time.Second, func() bool { return hasPin(ctx, C, xj) }) {
+				c.Inconclusive("update never reached the control replica")
+				return
+			}
+			time.Sleep(round)
+			c.Eval("pubsub/untrusted-update-ignored-after-join")
+			if hasPin(ctx, B, xj) || hasPin(ctx, B, x) {
+				c.Violation("C07/pubsub/untrusted-update-applied/after-joining-through-that-peer", "a replica applied pins published by a peer it does not trust after it had joined the cluster through that peer", nil)
+				return
+			}
+		} else {
+			c.Cover("pubsub/join-through-untrusted-peer-failed")
+		}
 	}
 	// phase 2: Trust(U) on B: it obtains U's updates
 	if err := B.Node.Consensus.Trust(ctx, U.ID); err != nil {
